@@ -699,6 +699,44 @@ fn expected_filtered(input: &[u8], argv: &[String]) -> Option<Vec<u8>> {
     Some(out)
 }
 
+/// Bounded reaction of the reader to the stop flag, whoever raised it (C17).
+fn reaction_bound(ex: &mut Executor, r: &ExecResult, v: &ExecSpec) -> Option<Fail> {
+    if let Some(after) = r.io.input_bytes_after_stop {
+        // in units of one reader batch (100 packets of the largest packet of this input)
+        let w = itsgen::walker::walk(&v.input);
+        let max_pkt = w.pkts.iter().map(|p| p.rdh.offset_next as u64).max().unwrap_or(64).max(64);
+        let batch = 100 * max_pkt;
+        // Bounded reaction: the reader looks at the stop flag once per batch of 100 packets, so after
+        // the store it finishes at most the batch it is in, plus what its 50 KiB read-ahead buffer
+        // (8 KiB for stdin) fetches. The time to stop must not grow with the input that is left.
+        let bound = batch + 64 * 1024;
+        if after > bound {
+            return Some(Fail::new(
+                "early-stop",
+                "keeps-reading-after-stop-event",
+                format!(
+                    "{after} input bytes were read after the stop flag was raised ({}) (bound: one batch of 100 packets = {batch} bytes + 64 KiB read-ahead) [cmd: {}]",
+                    match v.stop_at_step {
+                        Some(s) => format!("stop event injected at step {s}"),
+                        None => "by the program: error cap / fatal / failed output".to_string(),
+                    },
+                    v.cmdline()
+                ),
+            ));
+        }
+        let x = after * 10 / batch; // tenths of a batch
+        ex.probe(match x {
+            0 if after == 0 => "bytes_read_after_stop=0",
+            0..=4 => "bytes_read_after_stop<0.5batch",
+            5..=10 => "bytes_read_after_stop<=1batch",
+            11..=20 => "bytes_read_after_stop<=2batches",
+            21..=40 => "bytes_read_after_stop<=4batches",
+            _ => "bytes_read_after_stop>4batches",
+        });
+    }
+    None
+}
+
 fn run_early_stop(
     ex: &mut Executor,
     base: &ExecSpec,
@@ -743,6 +781,7 @@ fn run_early_stop(
         return out;
     }
     if *kind == StopKind::Intrinsic {
+        out.fail = reaction_bound(ex, &r0, &reference);
         return out;
     }
     let mut rng = Rng::new(points_seed);
@@ -806,36 +845,9 @@ fn run_early_stop(
                 return out;
             }
         }
-        if let (StopKind::StopEvent, Some(after)) = (kind, r.io.input_bytes_after_stop) {
-            // in units of one reader batch (100 packets of the largest packet of this input)
-            let w = itsgen::walker::walk(&v.input);
-            let max_pkt = w.pkts.iter().map(|p| p.rdh.offset_next as u64).max().unwrap_or(64).max(64);
-            let batch = 100 * max_pkt;
-            // Bounded reaction: the reader looks at the stop flag once per batch of 100 packets, so after
-            // the store it finishes at most the batch it is in, plus what its 50 KiB read-ahead buffer
-            // (8 KiB for stdin) fetches. The time to stop must not grow with the input that is left.
-            let bound = batch + 64 * 1024;
-            if after > bound {
-                out.fail = Some(Fail::new(
-                    "early-stop",
-                    "keeps-reading-after-stop-event",
-                    format!(
-                        "{after} input bytes were read after the stop event at step {:?} (bound: one batch of 100 packets = {batch} bytes + 64 KiB read-ahead) [cmd: {}]",
-                        v.stop_at_step,
-                        v.cmdline()
-                    ),
-                ));
-                return out;
-            }
-            let x = after * 10 / batch; // tenths of a batch
-            ex.probe(match x {
-                0 if after == 0 => "bytes_read_after_stop=0",
-                0..=4 => "bytes_read_after_stop<0.5batch",
-                5..=10 => "bytes_read_after_stop<=1batch",
-                11..=20 => "bytes_read_after_stop<=2batches",
-                21..=40 => "bytes_read_after_stop<=4batches",
-                _ => "bytes_read_after_stop>4batches",
-            });
+        if let Some(f) = reaction_bound(ex, &r, &v) {
+            out.fail = Some(f);
+            return out;
         }
         if r.outcome.stop_injected_at.is_some() {
             let full = r.outcome.probes.get("send_blocked_full_queue").copied().unwrap_or(0);
